@@ -63,11 +63,23 @@ GCM_KEYS = [bytes((7 * i + 3) & 0xff for i in range(32)), bytes.fromhex("feffe99
 GCM_IVS = [bytes((0x51 + 29 * i) & 0xff for i in range(12)), bytes.fromhex("cafebabefacedbaddecaf888")]
 
 
+ALG = {
+    "aes256gcm": dict(prefix="crypto_aead_aes256gcm", klen=32, nlen=12, abytes=16, failfill=0xd0),
+    "aegis128l": dict(prefix="crypto_aead_aegis128l", klen=16, nlen=16, abytes=32, failfill=0x00),
+    "aegis256": dict(prefix="crypto_aead_aegis256", klen=32, nlen=32, abytes=32, failfill=0x00),
+}
+
+
 def gcm_inputs(p):
-    inp = {"key": list(GCM_KEYS[p.get("key", 0)]), "iv": list(GCM_IVS[p.get("key", 0)]),
-           "msg": sym_bytes("m", p["mlen"]), "ad": sym_bytes("a", p["adlen"])}
+    cfg = ALG[p.get("alg", "aes256gcm")]
+    if p.get("alg", "aes256gcm") == "aes256gcm":
+        key = list(GCM_KEYS[p.get("key", 0)])
+        iv = sym_bytes("n", 12) if p.get("symiv") else list(GCM_IVS[p.get("key", 0)])
+    else:       # AEGIS: key and nonce symbolic
+        key, iv = sym_bytes("k", cfg["klen"]), sym_bytes("n", cfg["nlen"])
+    inp = {"key": key, "iv": iv, "msg": sym_bytes("m", p["mlen"]), "ad": sym_bytes("a", p["adlen"])}
     if p["form"] == "dec_forged_tag":
-        inp["delta"] = sym_bytes("d", 16)
+        inp["delta"] = sym_bytes("d", cfg["abytes"])
     return inp
 
 
@@ -81,6 +93,11 @@ def _cb(v, n):
 
 def gcm_expected(inp, p):
     from . import gcm_spec
+    alg = p.get("alg", "aes256gcm")
+    if alg != "aes256gcm":
+        from . import aegis_spec
+        fn = aegis_spec.aegis128l_encrypt if alg == "aegis128l" else aegis_spec.aegis256_encrypt
+        return fn([_b(x) for x in inp["key"]], [_b(x) for x in inp["iv"]], [_b(x) for x in inp["msg"]], [_b(x) for x in inp["ad"]])
     c, tag = gcm_spec.gcm_encrypt([_b(x) for x in inp["key"]], [_b(x) for x in inp["iv"]], [_b(x) for x in inp["msg"]], [_b(x) for x in inp["ad"]])
     return c, tag
 
@@ -89,11 +106,13 @@ def gcm_spec_out(inp, p):
     c, tag = gcm_expected(inp, p)
     f = p["form"]
     ml = p["mlen"]
+    cfg = ALG[p.get("alg", "aes256gcm")]
+    AB, FILL = cfg["abytes"], cfg["failfill"]
     ok, fail = [aig.const_bits(0, 32)], [aig.const_bits(0xffffffff, 32)]
     if f in ("enc_detached", "enc_detached_afternm"):
-        return ok + c + tag + _cb(16, 8)
+        return ok + c + tag + _cb(AB, 8)
     if f in ("enc", "enc_inplace"):
-        return ok + c + tag + _cb(ml + 16, 8)
+        return ok + c + tag + _cb(ml + AB, 8)
     if f in ("dec_detached", "dec_detached_inplace"):
         return ok + [_b(x) for x in inp["msg"]]
     if f in ("dec", "dec_inplace"):
@@ -103,7 +122,7 @@ def gcm_spec_out(inp, p):
     if f in ("dec_forged_tag", "dec_forged_c", "dec_forged_ad", "dec_truncated"):
         if f == "dec_truncated":
             return fail + _cb(0, 8)
-        return fail + [aig.const_bits(0xd0, 8)] * ml + _cb(0, 8)
+        return fail + [aig.const_bits(FILL, 8)] * ml + _cb(0, 8)
     if f == "verify_only_forged":
         return fail
     raise KeyError(f)
@@ -115,34 +134,42 @@ def _flip(byte_bits, bit):
 
 def gcm_run(it, entry, inp, p):
     f, ml, al = p["form"], p["mlen"], p["adlen"]
-    A = lambda fn: _name(it, fn)
+    cfg = ALG[p.get("alg", "aes256gcm")]
+    AB, KL, NL, PRE = cfg["abytes"], cfg["klen"], cfg["nlen"], cfg["prefix"]
+    if p.get("impl"):
+        # select the back end the way _pick_best_implementation does: the dispatcher's static pointer
+        gp = [g for g in it.mod.globals if g.startswith("@implementation")]
+        it.store_bytes(it.global_ptr(gp[0]), it.global_ptr("@" + p["impl"]), 8, "select back end")
+    A = lambda fn: _name(it, fn.replace("crypto_aead_aes256gcm", PRE))
     ret = lambda r: [aig.const_bits(r & 0xffffffff, 32)] if not isinstance(r, aig.AV) else [r.bits]
-    k = it.new_buffer(32, "k", False, inp["key"])
-    n = it.new_buffer(12, "npub", False, inp["iv"])
+    k = it.new_buffer(KL, "k", False, [0] * KL)
+    fill(it, k, inp["key"])
+    n = it.new_buffer(NL, "npub", False, [0] * NL)
+    fill(it, n, inp["iv"])
     ad = it.new_buffer(al, "ad", False, [0] * al)
     fill(it, ad, inp["ad"])
     ln = it.new_buffer(8, "len_p", False, [0xee] * 8)
     if f.startswith("enc"):
         if f == "enc_inplace":
-            buf = it.new_buffer(ml + 16, "buf", False, [0] * (ml + 16))
+            buf = it.new_buffer(ml + AB, "buf", False, [0] * (ml + AB))
             fill(it, buf, inp["msg"])
             r = it.call(A("crypto_aead_aes256gcm_encrypt"), [buf, ln, buf, ml, ad, al, 0, n, k])
-            return ret(r) + [_b(x) for x in it.read_buffer(buf, ml + 16)] + [_b(x) for x in it.read_buffer(ln, 8)]
+            return ret(r) + [_b(x) for x in it.read_buffer(buf, ml + AB)] + [_b(x) for x in it.read_buffer(ln, 8)]
         m = it.new_buffer(ml, "m", False, [0] * ml)
         fill(it, m, inp["msg"])
         if f == "enc":
-            c = it.new_buffer(ml + 16, "c", False, [0] * (ml + 16))
+            c = it.new_buffer(ml + AB, "c", False, [0] * (ml + AB))
             r = it.call(A("crypto_aead_aes256gcm_encrypt"), [c, ln, m, ml, ad, al, 0, n, k])
-            return ret(r) + [_b(x) for x in it.read_buffer(c, ml + 16)] + [_b(x) for x in it.read_buffer(ln, 8)]
+            return ret(r) + [_b(x) for x in it.read_buffer(c, ml + AB)] + [_b(x) for x in it.read_buffer(ln, 8)]
         c = it.new_buffer(ml, "c", False, [0] * ml)
-        mac = it.new_buffer(16, "mac", False, [0] * 16)
+        mac = it.new_buffer(AB, "mac", False, [0] * AB)
         if f == "enc_detached":
             r = it.call(A("crypto_aead_aes256gcm_encrypt_detached"), [c, mac, ln, m, ml, ad, al, 0, n, k])
         else:
             st = it.new_buffer(512, "ctx", False, [0] * 512)
             it.call(A("crypto_aead_aes256gcm_beforenm"), [st, k])
             r = it.call(A("crypto_aead_aes256gcm_encrypt_detached_afternm"), [c, mac, ln, m, ml, ad, al, 0, n, st])
-        return ret(r) + [_b(x) for x in it.read_buffer(c, ml)] + [_b(x) for x in it.read_buffer(mac, 16)] + [_b(x) for x in it.read_buffer(ln, 8)]
+        return ret(r) + [_b(x) for x in it.read_buffer(c, ml)] + [_b(x) for x in it.read_buffer(mac, AB)] + [_b(x) for x in it.read_buffer(ln, 8)]
     # decrypt forms: the presented ciphertext and tag are the specification's (canonical literals over m / ad)
     c, tag = gcm_expected(inp, p)
     c = [aig.mkv(x) for x in c]
@@ -164,7 +191,7 @@ def gcm_run(it, entry, inp, p):
     if f in ("dec_detached", "dec_detached_inplace", "dec_verify_only", "verify_only_forged"):
         cb = it.new_buffer(ml, "c", False, [0] * ml)
         fill(it, cb, c)
-        mac = it.new_buffer(16, "mac", False, [0] * 16)
+        mac = it.new_buffer(AB, "mac", False, [0] * AB)
         fill(it, mac, tag)
         if f in ("dec_verify_only", "verify_only_forged"):
             r = it.call(A("crypto_aead_aes256gcm_decrypt_detached"), [0, 0, cb, ml, mac, ad, al, n, k])
@@ -179,10 +206,10 @@ def gcm_run(it, entry, inp, p):
         mo = it.new_buffer(1, "mout", False, [0x11])
         r = it.call(A("crypto_aead_aes256gcm_decrypt"), [mo, ln, 0, cb, tl, ad, al, n, k])
         return ret(r) + [_b(x) for x in it.read_buffer(ln, 8)]
-    cb = it.new_buffer(ml + 16, "c", False, [0] * (ml + 16))
+    cb = it.new_buffer(ml + AB, "c", False, [0] * (ml + AB))
     fill(it, cb, c + tag)
     mo = cb if f == "dec_inplace" else it.new_buffer(ml, "mout", False, [0x11] * ml)
-    r = it.call(A("crypto_aead_aes256gcm_decrypt"), [mo, ln, 0, cb, ml + 16, ad, al, n, k])
+    r = it.call(A("crypto_aead_aes256gcm_decrypt"), [mo, ln, 0, cb, ml + AB, ad, al, n, k])
     return ret(r) + [_b(x) for x in it.read_buffer(mo, ml)] + [_b(x) for x in it.read_buffer(ln, 8)]
 
 
@@ -264,6 +291,50 @@ for _r, _forms in sorted(_GCM_ROUTES.items()):
                         thorough=[x for x in _gcm_shapes("thorough") if x["form"] in _forms and x not in _q]))
 
 
+def _aegis_shapes(alg, tier, impl):
+    r = 32 if alg == "aegis128l" else 16
+    q = []
+    base = dict(alg=alg, impl=impl)
+    lens_q = (0, 1, r - 1, r, r + 1, 2 * r, 2 * r + 1, 4 * r + 3)
+    lens_t = tuple(range(0, 2 * r + 2)) + (3 * r - 1, 3 * r, 3 * r + 1, 4 * r, 4 * r + 1, 6 * r + 5, 8 * r, 8 * r + 1)
+    for ml in (lens_q if tier == "quick" else lens_t):
+        q.append(dict(base, form="enc_detached", mlen=ml, adlen=5 if ml % 2 else 0))
+    for al in (lens_q[1:] if tier == "quick" else lens_t[1:]):
+        q.append(dict(base, form="enc_detached", mlen=3 if al % 2 else 0, adlen=al))
+    for ml, al in ((0, 0), (r + 1, 5), (2 * r + 1, 2 * r + 1)) if tier == "quick" else [(a, b) for a in (0, 1, r, r + 1, 2 * r, 3 * r + 1) for b in (0, 1, r, 2 * r + 1)]:
+        for f in ("enc", "enc_inplace", "dec_detached", "dec", "dec_inplace", "dec_detached_inplace", "dec_verify_only", "dec_forged_tag"):
+            q.append(dict(base, form=f, mlen=ml, adlen=al))
+    # (a changed ciphertext / ad changing the recomputed tag is a cryptographic property of AEGIS, undecidable for a
+    # symbolic key: the rejection obligations present an arbitrary ciphertext with tag = specified tag ^ delta)
+    for ml in ((1, r + 1, 2 * r) if tier == "quick" else lens_t[1:]):
+        q.append(dict(base, form="dec_forged_tag", mlen=ml, adlen=3))
+        q.append(dict(base, form="dec_verify_only", mlen=ml, adlen=3))
+    for tl in (0, 1, 31):
+        q.append(dict(base, form="dec_truncated", mlen=16, adlen=0, clen=tl))
+    return q
+
+
+def _aegis_units(alg):
+    d = "crypto_aead/%s/" % alg
+    return [d + "aead_%s.c" % alg, d + "%s_aesni.c" % alg, d + "%s_soft.c" % alg, "crypto_core/softaes/softaes.c", "crypto_verify/verify.c", "sodium/utils.c"]
+
+
+for _alg in ("aegis128l", "aegis256"):
+    for _be in ("aesni", "soft"):
+        for _r, _forms in sorted(_GCM_ROUTES.items()):
+            _impl = "%s_%s_implementation" % (_alg, _be)
+            _q = [x for x in _aegis_shapes(_alg, "quick", _impl) if x["form"] in _forms]
+            if _be == "soft":
+                # ~30 s per shape (table-driven AES: 16 symbolic-index loads per round): the quick tier keeps the shapes
+                # that cross the rate with a partial block; everything else is in the thorough tier
+                _rr = 32 if _alg == "aegis128l" else 16
+                _q = [x for x in _q if (x["mlen"], x["adlen"]) in ((_rr + 1, 5), (0, 0), (2 * _rr + 1, 0), (3, _rr + 1))
+                      and x["form"] in ("enc_detached", "dec", "dec_forged_tag", "enc_inplace", "dec_inplace")]
+            TARGETS.append(dict(name="%s-%s-%s" % (_alg, _be, _r), inputs=gcm_inputs, run=gcm_run, affine=True,
+                                a=dict(spec=gcm_spec_out), b=dict(units=_aegis_units(_alg), entry=None), quick=_q,
+                                thorough=[x for x in _aegis_shapes(_alg, "thorough", _impl) if x["form"] in _forms and x not in _q]))
+
+
 def params_of(t, tier):
     return list(t["quick"]) + (list(t["thorough"]) if tier == "thorough" else [])
 
@@ -295,6 +366,7 @@ def run_one(tname, tier, pidx, workroot, budget=900):
         cnfdir = os.path.join(workroot, "cnf-%d" % os.getpid())
         os.makedirs(cnfdir, exist_ok=True)
         obs_sat = 0
+        assume = []
         for side, tag in ((t["a"], tname + "-a"), (t["b"], tname + "-b")):
             if "spec" in side:
                 outs.append(side["spec"](inp, p))
@@ -306,12 +378,13 @@ def run_one(tname, tier, pidx, workroot, budget=900):
             outs.append(t["run"](it, side["entry"], inp, p))
             steps.append(it.steps)
             obs_sat += it.sat_calls
+            assume += it.assume_lits
         if [len(v) for v in outs[0]] != [len(v) for v in outs[1]]:
             raise KeyError("output shapes differ: %r vs %r" % ([len(v) for v in outs[0]][:8], [len(v) for v in outs[1]][:8]))
         nodes = aig.G.size()
         nbits = sum(len(v) for v in outs[0])
         ident = sum(1 for va, vb in zip(*outs) for x, y in zip(va, vb) if x == y)
-        verdict, info = equiv.check_equal(outs[0], outs[1], cnfdir, budget_s=budget)
+        verdict, info = equiv.check_equal(outs[0], outs[1], cnfdir, budget_s=budget, assume=assume)
         info["sat_calls"] = info.get("sat_calls", 0) + obs_sat
         res.update(ir_steps=steps, graph_nodes=nodes, output_bits=nbits, structurally_identical_bits=ident,
                    sat_calls=info.get("sat_calls", 0), unsat=info.get("unsat", 0), sat_time_s=round(info.get("sat_time", 0), 2),
